@@ -411,3 +411,57 @@ def flag_arms(ir, a):
         z.unfolded = a
         a._zero_arm = z
     return [z, f]
+
+
+def struct_fields(ir, base, layout):
+    """Drivers of the fields of a packed struct signal `base` with `layout` = [(field, width), ...] (first field in the
+    least significant bits), whether the fields are assigned one by one or the struct as a whole (`s.eq(Cat(...))`):
+    {field name: [assignments]} -- whole-struct assignments contribute one pseudo assignment per field."""
+    import copy
+    from .hdl import slice_of
+    from .ir import SigInfo
+    out = {f: list(ir.drivers('%s.%s' % (base, f), exact=True)) for f, _ in layout}
+    total = sum(w for _, w in layout)
+    for a in ir.drivers(base, exact=True):
+        if not (isinstance(a.lhs, E) and a.lhs.op == 'sig' and a.lhs.canon() == base and isinstance(a.rhs, E)):
+            continue
+        if not (a.rhs.op == 'const' or (isinstance(a.rhs.w, int) and a.rhs.w >= total)):
+            continue
+        off = 0
+        for f, w in layout:
+            b = copy.copy(a)
+            b.lhs = E('sig', (SigInfo('%s.%s' % (base, f), w=w),), w=w)
+            b.rhs = slice_of(a.rhs, off, off + w)
+            b.whole = a
+            out[f].append(b)
+            off += w
+    for f in out:
+        out[f].sort(key=lambda x: x.order)
+    return out
+
+
+def resolve_mux(e, asg):
+    """`e` with every Mux whose condition is decided by the assignment `asg` replaced by the selected operand, and the
+    neutral elements of ^ and | (constant 0) dropped -- the value expression that applies under that valuation."""
+    from .fsm import eval_bool
+    if not isinstance(e, E):
+        return e
+    if e.op == 'mux' and len(e.args) == 3:
+        v = eval_bool(e.args[0], asg)
+        if v is True:
+            return resolve_mux(e.args[1], asg)
+        if v is False:
+            return resolve_mux(e.args[2], asg)
+    if not any(isinstance(a, E) for a in e.args):
+        return e
+    na = tuple(resolve_mux(a, asg) if isinstance(a, E) else a for a in e.args)
+    if e.op in ('^', '|') and len(na) > 1:
+        keep = [a for a in na if not is_zero(a)]
+        if len(keep) == 1:
+            return keep[0]
+        if keep and len(keep) < len(na):
+            na = tuple(keep)
+    if e.op == 'slice' and isinstance(na[0], E) and isinstance(na[1], int) and isinstance(na[2], int):
+        from .hdl import slice_of
+        return slice_of(na[0], na[1], na[2])
+    return E(e.op, na, w=e.w, val=e.val, label=e.label)
